@@ -428,6 +428,45 @@ class History:
         qs.append({"unstake_requests": {"user": r.choice(self._users())}})
         qs.append({r.choice(["all_unstake_requests", "all_unstake_requests_v2"]):
                    {"start_after": r.choice([None, 0, 1, nb]), "limit": r.choice([None, 0, 1, 2, 5, 2 ** 32 - 1])}})
+        # the implementation against itself first (an oracle that needs no model): BatchesByIds is exactly the
+        # existing requested batches, in request order; UnstakeRequests(u) is exactly u's entries of the
+        # complete request listing; the transfer queue pages completely
+        def finding(mon, sig, what):
+            self.findings.append({"property": "C17", "monitor": mon, "signature": sig, "what": what,
+                                  "upto": len(self.events), "event": self.events[-1]})
+        fullb = self.h.call({"op": "query", "msg": {"batches": {"start_after": None, "limit": None, "status": None}}})
+        if "ok" in fullb:
+            byid = {b["id"]: b for b in fullb["ok"]["batches"]}
+            for q in qs:
+                if "batches_by_ids" in q:
+                    ids = q["batches_by_ids"]["ids"]
+                    a = self.h.call({"op": "query", "msg": q})
+                    want = [byid[i] for i in ids if i in byid]
+                    if "ok" in a and a["ok"]["batches"] != want:
+                        finding("by_ids", {"n": len(ids)}, "BatchesByIds %s returns ids %s, the existing requested batches are %s" % (
+                            ids, [b["id"] for b in a["ok"]["batches"]], [b["id"] for b in want]))
+                if "batch" in q:
+                    a = self.h.call({"op": "query", "msg": q})
+                    if ("ok" in a) != (q["batch"]["id"] in byid) or ("ok" in a and a["ok"] != byid[q["batch"]["id"]]):
+                        finding("batch_by_id", {}, "Batch %s disagrees with the Batches listing" % q["batch"]["id"])
+        allr = self.h.call({"op": "query", "msg": {"all_unstake_requests": {"start_after": None, "limit": None}}})
+        if "ok" in allr:
+            for u in self._users():
+                a = self.h.call({"op": "query", "msg": {"unstake_requests": {"user": u}}})
+                want = sorted([x for x in allr["ok"] if x["user"] == u], key=lambda x: x["batch_id"])
+                if "ok" in a and a["ok"] != want:
+                    finding("user_index", {}, "UnstakeRequests(%s) = %s, the complete listing holds %s" % (u, a["ok"], want))
+        fullq = self.h.call({"op": "query", "msg": {"ibc_queue": {"start_after": None, "limit": None}}})
+        if "ok" in fullq:
+            got, cursor = [], None
+            for _ in range(len(fullq["ok"]["ibc_queue"]) + 2):
+                pg = self.h.call({"op": "query", "msg": {"ibc_queue": {"start_after": cursor, "limit": 2}}})
+                if "ok" not in pg or not pg["ok"]["ibc_queue"]:
+                    break
+                got += pg["ok"]["ibc_queue"]
+                cursor = pg["ok"]["ibc_queue"][-1]["sequence"]
+            if got != fullq["ok"]["ibc_queue"]:
+                finding("queue_pages", {}, "chained pages of the transfer queue differ from the unpaginated answer")
         for q in qs:
             a = self.h.call({"op": "query", "msg": q})
             self.stats.calls += 1
